@@ -65,7 +65,7 @@ MC = {
                  dict(Profile="perm", MaxN=1, WithPeerWild="FALSE"), dict(Profile="perm2", MaxN=2, WithPeerWild="FALSE"),
                  dict(Profile="src", MaxN=2, WithPeerWild="TRUE", cov=True)],
 }
-RANDOM = {"quick": 80, "thorough": 800}
+RANDOM = {"quick": 80, "thorough": 500}
 CHUNK = 2500
 
 
